@@ -460,6 +460,12 @@ func (p *pset) innerAsLeaf(total uint64) []offer {
 		out = append(out, offer{part: &types.Part{Index: 0, Bytes: cpb(b), Proof: merkle.SimpleProof{Total: total, Index: 0, LeafHash: lhash, Aunts: nil}},
 			kind: "inner-node-as-leaf", desc: fmt.Sprintf("inner-node-as-leaf(total=%d)", total)})
 	}
+	// the same with the inner-node prefix as first data byte (what verifies when only the leaf prefix is missing)
+	b1 := append([]byte{1}, b...)
+	for _, lhash := range [][]byte{refLeaf(b1), cpb(p.root)} {
+		out = append(out, offer{part: &types.Part{Index: 0, Bytes: cpb(b1), Proof: merkle.SimpleProof{Total: total, Index: 0, LeafHash: lhash, Aunts: nil}},
+			kind: "inner-node-as-leaf", desc: fmt.Sprintf("inner-node-with-prefix-as-leaf(total=%d)", total)})
+	}
 	// one level down on the left: children of the left subtree as a leaf, the right subtree as its aunt
 	if k >= 2 {
 		kk := refSplit(k)
@@ -482,11 +488,26 @@ func runSeq(c *core.Case, p *pset, hdr types.PartSetHeader, offers []offer, expe
 	run := c.Run
 	genuineHdr := hdr.Total == uint32(p.n) && bytes.Equal(hdr.Hash.Bytes(), p.root)
 	var ps *types.PartSet
-	var trace []string
+	type rec struct {
+		desc  string
+		added bool
+		err   error
+		done  bool
+	}
+	var trace []rec
 	wit := func() interface{} {
-		t := trace
-		if len(t) > 60 {
-			t = append([]string{fmt.Sprintf("... %d earlier offers ...", len(t)-60)}, t[len(t)-60:]...)
+		var t []string
+		from := 0
+		if len(trace) > 60 {
+			from = len(trace) - 60
+			t = append(t, fmt.Sprintf("... %d earlier offers ...", from))
+		}
+		for _, x := range trace[from:] {
+			if x.done {
+				t = append(t, fmt.Sprintf("%s -> added=%v err=%v", x.desc, x.added, x.err))
+			} else {
+				t = append(t, x.desc)
+			}
 		}
 		return map[string]interface{}{"set": p.String(), "header": fmt.Sprintf("total=%d hash=%x", hdr.Total, hdr.Hash.Bytes()), "genuine_header": genuineHdr,
 			"sequence": tag, "offers_so_far": t, "data_prefix": fmt.Sprintf("%x", p.data[:minInt(len(p.data), 48)])}
@@ -500,11 +521,11 @@ func runSeq(c *core.Case, p *pset, hdr types.PartSetHeader, offers []offer, expe
 	for _, o := range offers {
 		var added bool
 		var err error
-		trace = append(trace, o.desc)
+		trace = append(trace, rec{desc: o.desc})
 		if c.Guard("PartSet.AddPart", wit, func() { added, err = ps.AddPart(o.part) }) {
 			return false
 		}
-		trace[len(trace)-1] = fmt.Sprintf("%s -> added=%v err=%v", o.desc, added, err)
+		trace[len(trace)-1] = rec{o.desc, added, err, true}
 		run.Eval(1)
 		idx := o.part.Index
 		inRange := idx < hdr.Total
@@ -738,7 +759,11 @@ func exhaustiveCase(c *core.Case, cfgs []exCfg) {
 		rnd := r.Perm(n)
 		orders = append(orders, id, rev, rnd)
 	}
-	for _, ord := range orders {
+	posOrders := orders
+	if big {
+		posOrders = orders[:1]
+	}
+	for _, ord := range posOrders {
 		for pos := 0; pos <= n; pos++ {
 			for _, b := range matrix {
 				var offers []offer
@@ -774,7 +799,7 @@ func exhaustiveCase(c *core.Case, cfgs []exCfg) {
 		return
 	}
 	run.Nontrivial(fmt.Sprintf("ex|%d|%d|%d", cfg.n, cfg.psI, cfg.last))
-	if c.I == 7 {
+	if cfg.n == 3 && cfg.psI == 2 && cfg.last == 0 {
 		run.Sample(map[string]interface{}{"group": c.Group, "case": c.I, "set": p.String(), "orders": len(orders), "matrix": len(matrix), "first_bogus": matrix[0].desc})
 	}
 }
@@ -831,8 +856,9 @@ type exCfg struct{ n, psI, last int }
 
 func exhaustiveCfgs(quick bool) []exCfg {
 	var out []exCfg
-	for n := 0; n <= 6; n++ {
-		for psI := range partSizes {
+	// the most expensive configurations first, so that the workers finish together
+	for n := 6; n >= 0; n-- {
+		for psI := len(partSizes) - 1; psI >= 0; psI-- {
 			for last := 0; last < 3; last++ {
 				if partSizes[psI] == 1 && last != 0 {
 					continue
@@ -847,35 +873,11 @@ func exhaustiveCfgs(quick bool) []exCfg {
 	return out
 }
 
-// randomCase: 1..40 parts (mostly above 6), random arrival order with duplicates
-// and a random sample of adversarial parts before / between / after genuine ones.
-func randomCase(c *core.Case) {
-	run, r := c.Run, c.R
-	n := 7 + r.Intn(34)
-	switch {
-	case c.I%41 == 40:
-		n = 0
-	case c.I < 82:
-		n = c.I % 41 // every count 0..40 appears in the first cases
-	case r.Intn(6) == 0:
-		n = 1 + r.Intn(6)
-	}
-	psI := r.Intn(len(partSizes))
-	if c.I < 82 {
-		psI = (c.I / 41 * 2) + r.Intn(2)
-	}
-	ps := partSizes[psI]
-	last := r.Intn(3)
-	if ps == 1 {
-		last = 0
-	}
-	low := ps <= 7 && r.Intn(3) == 0
-	data := genData(r, dataLen(r, n, ps, last), low)
-	p, ok := newPset(c, data, ps)
-	if !ok {
-		return
-	}
-	n = p.n
+// randomOffers: the genuine parts in a random arrival order with duplicates, and a
+// random sample of adversarial parts before / between / after them. The second
+// result is the adversarial sample.
+func (p *pset) randomOffers(r *rand.Rand) ([]offer, []offer) {
+	n, ps := p.n, p.ps
 	// genuine arrival order with duplicates
 	var offers []offer
 	order := r.Perm(n)
@@ -926,6 +928,37 @@ func randomCase(c *core.Case) {
 			seq = append(seq, offers[k])
 		}
 	}
+	return seq, chosen
+}
+
+// randomCase: 1..40 parts (mostly above 6), random arrival order with duplicates
+// and a random sample of adversarial parts before / between / after genuine ones.
+func randomCase(c *core.Case) {
+	run, r := c.Run, c.R
+	n := 7 + r.Intn(34)
+	switch {
+	case c.I < 82:
+		n = c.I % 41 // every count 0..40 appears in the first cases
+	case r.Intn(6) == 0:
+		n = 1 + r.Intn(6)
+	}
+	psI := r.Intn(len(partSizes))
+	if c.I < 82 {
+		psI = (c.I / 41 * 2) + r.Intn(2)
+	}
+	ps := partSizes[psI]
+	last := r.Intn(3)
+	if ps == 1 {
+		last = 0
+	}
+	low := ps <= 7 && r.Intn(3) == 0
+	data := genData(r, dataLen(r, n, ps, last), low)
+	p, ok := newPset(c, data, ps)
+	if !ok {
+		return
+	}
+	n = p.n
+	seq, chosen := p.randomOffers(r)
 	run.Count("random_sequences", 1)
 	run.Count("random_offers", len(seq))
 	run.Max("max_parts", int64(n))
